@@ -134,6 +134,16 @@ EndsAtFirstTerminator ==
           IF IndexByteFrom(s, t.off, GT) = -1 THEN t.len = n - t.off ELSE t.len = IndexByteFrom(s, t.off, GT) - t.off
 
 ----------------------------------------------------------------------------
+\* refinement: every concrete micro-step is a step of the finite abstraction Html5Abs
+AbsOf == [st |-> c.st, isClose |-> c.isClose, zero |-> (c.pos = 0),
+          nx |-> IF c.pos >= n THEN "eof" ELSE IF B(s, c.pos) = 62 THEN "gt" ELSE "other",
+          attr |-> attr, depth |-> depth, fired |-> fired, done |-> (phase = "end")]
+AbsF == INSTANCE Html5Abs WITH a <- AbsOf, NoLtEq <- FALSE
+AbsT == INSTANCE Html5Abs WITH a <- AbsOf, NoLtEq <- TRUE
+InputHasNoLtEq == \A i \in DOMAIN s : s[i] # 60 /\ s[i] # 61
+RefinesAbs == [][IF InputHasNoLtEq THEN AbsT!Next ELSE AbsF!Next]_vars
+
+----------------------------------------------------------------------------
 \* export of terminal behaviours for replay into the real code
 
 Terminal == phase = "end"
